@@ -61,7 +61,10 @@ class ProjectResultRegistry(ProjectRegistry):
         list[Path]
             Paths to previous results with name ``base_name``.
         """
-        return sorted(self.directory.glob(f"{base_name}_run_*"))
+        run_pattern = re.compile(rf"{re.escape(base_name)}_run_\d{{4}}$")
+        return sorted(
+            path for path in self.directory.glob("*_run_*") if run_pattern.match(path.name)
+        )
 
     def _latest_result_path_fallback(self, name: str, *, latest: bool = False) -> Path:
         """Fallback when a user forgets to specify the run to get a result.
